@@ -4,8 +4,8 @@
 (* grids); the C01..C06 predicates are the LogProps definitions instantiated with those values.  *)
 EXTENDS Integers, Sequences, FiniteSets, TLC, Json
 TraceLog == ndJsonDeserialize("trace.ndjson")
-VARIABLES l, acked, s3seg, s3idx, storeNext, hwReg, nextReg, rfail, up, restarted, memNext, hwMax, lost, viol
-ovars == <<l, acked, s3seg, s3idx, storeNext, hwReg, nextReg, rfail, up, restarted, memNext, hwMax, lost, viol>>
+VARIABLES l, acked, s3seg, s3idx, storeNext, hwReg, nextReg, rfail, up, restarted, memNext, hwMax, lost, sync, viol
+ovars == <<l, acked, s3seg, s3idx, storeNext, hwReg, nextReg, rfail, up, restarted, memNext, hwMax, lost, sync, viol>>
 Range(s) == {s[i] : i \in DOMAIN s}
 S3Put(s, o) == {x \in s : x.base # o.base} \cup {o}
 LogEvs == {"Append", "FlushWait", "FlushPrepare", "PubRead", "FlushFail", "FlushCommit", "Restore"}
@@ -37,8 +37,10 @@ Bad(a, sg, si, sn, hr, nr, rf, il, u, rs, mn, hm, rf2, rd) == {n \in Names :
     \/ n = "C06_NoHide" /\ ~P(a, sg, si, sn, hr, nr, rf, il, u, rs, mn, hm, rf2, rd)!C06_NoHide
     \/ n = "C06_NoReuse" /\ ~P(a, sg, si, sn, hr, nr, rf, il, u, rs, mn, hm, rf2, rd)!C06_NoReuse
     \/ n = "C06_Readable" /\ ~P(a, sg, si, sn, hr, nr, rf, il, u, rs, mn, hm, rf2, rd)!C06_Readable}
+\* with flush-on-ack off an acknowledged record may be lost in a crash by design: durability clauses are not claimed
+AsyncNames == {"C02_Unique", "C02_Monotone", "C02_BaseIsStored", "C03_FetchExact", "C04_Progress", "C05_Monotone", "C05_NotAhead"}
 OInit == /\ l = 0 /\ acked = {} /\ s3seg = {} /\ s3idx = {} /\ storeNext = 0 /\ hwReg = FALSE /\ nextReg = FALSE
-         /\ rfail = FALSE /\ up = TRUE /\ restarted = FALSE /\ memNext = 0 /\ hwMax = 0 /\ lost = {} /\ viol = {}
+         /\ rfail = FALSE /\ up = TRUE /\ restarted = FALSE /\ memNext = 0 /\ hwMax = 0 /\ lost = {} /\ sync = TRUE /\ viol = {}
 Step ==
   /\ l < Len(TraceLog) /\ l' = l + 1
   /\ LET e == TraceLog[l + 1]
@@ -49,6 +51,7 @@ Step ==
                       THEN S3Put(s3seg, [base |-> e.base, last |-> e.last, batches |-> [j \in DOMAIN e.batches |-> [id |-> e.batches[j].id, base |-> e.batches[j].base, cnt |-> e.batches[j].cnt]]])
                       ELSE s3seg
         /\ s3idx' = IF reset THEN {} ELSE IF e.ev = "PutIndex" /\ e.ok THEN s3idx \cup {e.base} ELSE IF e.ev = "LoseIdx" THEN s3idx \ {e.base} ELSE s3idx
+        /\ sync' = IF reset THEN e.sync ELSE sync
         /\ lost' = IF reset THEN {} ELSE IF e.ev = "LoseIdx" THEN lost \cup {e.base} ELSE lost
         \* the published end offset is observed at every store update and, at every grid, as the "latest" ListOffsets answer
         /\ storeNext' = IF reset THEN 0 ELSE IF e.ev = "UpdateOffsets" THEN e.new ELSE IF e.ev = "Grid" /\ e.lo >= 0 THEN e.lo ELSE storeNext
@@ -62,7 +65,7 @@ Step ==
         /\ memNext' = IF reset THEN 0 ELSE IF islog THEN e.st.next ELSE IF e.ev = "Restart" /\ e.ok THEN e.next ELSE memNext
         /\ nextReg' = IF reset THEN FALSE ELSE IF islog /\ up THEN (nextReg \/ e.st.next < memNext) ELSE nextReg
         /\ viol' = IF reset THEN viol
-                   ELSE viol \cup {<<l + 1, n>> : n \in Bad(acked', s3seg', s3idx' \cup lost', storeNext', hwReg', nextReg', rfail', lost' # {}, up', restarted', memNext', hwMax', RefOf(e), ReadsOf(e))}
+                   ELSE viol \cup {<<l + 1, n>> : n \in (IF sync' THEN Names ELSE AsyncNames) \cap Bad(acked', s3seg', s3idx' \cup lost', storeNext', hwReg', nextReg', rfail', lost' # {}, up', restarted', memNext', hwMax', RefOf(e), ReadsOf(e))}
   /\ (l' = Len(TraceLog)) => PrintT(<<"OBS", ToJson([consumed |-> l', viol |-> viol'])>>)
 OSpec == OInit /\ [][Step]_ovars
 ====
